@@ -3,6 +3,9 @@
 package verifh
 
 import (
+	"time"
+	"path/filepath"
+	"os"
 	"context"
 	"fmt"
 	"github.com/ory/keto/internal/driver"
@@ -163,6 +166,98 @@ func suiteTypechk(t *testing.T, cfg cfgT) {
 			e.close()
 			out.stat("corpus.docs")
 		}
+	}
+	// corpus: a hot reload.  The watched OPL file is replaced by another accepted document (a permission renamed, a relation
+	// added) while the server runs and after the first document has been used by checks (also for a relation only the
+	// second one declares); what the second document declares must then be checkable without a schema error
+	for _, strict := range []bool{false, true} {
+		v1 := `class User implements Namespace {}
+class Folder implements Namespace {
+  related: { viewers: User[] }
+  permits = { view: (ctx: Context): boolean => this.related.viewers.includes(ctx.subject) }
+}
+class Doc implements Namespace {
+  related: { parents: Folder[] }
+  permits = { view: (ctx: Context): boolean => this.related.parents.traverse((p) => p.permits.view(ctx)) }
+}`
+		v2 := `class User implements Namespace {}
+class Folder implements Namespace {
+  related: { viewers: User[] }
+  permits = { read: (ctx: Context): boolean => this.related.viewers.includes(ctx.subject) }
+}
+class Doc implements Namespace {
+  related: { parents: Folder[]; owners: User[] }
+  permits = { view: (ctx: Context): boolean => this.related.parents.traverse((p) => p.permits.read(ctx)) }
+}
+class Reloaded implements Namespace {}`
+		dir := t.TempDir()
+		file := filepath.Join(dir, "namespaces.ts")
+		if err := os.WriteFile(file, []byte(v1), 0o600); err != nil {
+			t.Fatal(err)
+		}
+		opts := []driver.TestRegistryOption{driver.WithConfig(config.KeyNamespaces+".location", "file://"+file),
+			driver.WithConfig(config.KeyLimitMaxReadDepth, 12), driver.WithConfig(config.KeyLimitMaxReadWidth, 100)}
+		if strict {
+			opts = append(opts, driver.WithConfig(config.KeyNamespacesExperimentalStrictMode, true))
+		}
+		e := newEnv(t, opts...)
+		pool := newPool()
+		for _, x := range []string{"readme", "f", "alice", "bob"} {
+			pool.add(x)
+		}
+		pool.addNet(e.nid, 1)
+		bg := context.Background()
+		load := func() []*namespace.Namespace {
+			nm, _ := e.reg.Config(bg).NamespaceManager()
+			l, _ := nm.Namespaces(bg)
+			sort.Slice(l, func(i, j int) bool { return l[i].Name < l[j].Name })
+			return l
+		}
+		mkT := func(xs ...string) (ts []*ketoapi.RelationTuple) {
+			for _, x := range xs {
+				tu, err := (&ketoapi.RelationTuple{}).FromString(x)
+				if err != nil {
+					t.Fatal(err)
+				}
+				ts = append(ts, tu)
+			}
+			return
+		}
+		ee := &engineEnv{e: e, pool: pool, nss: load(), strict: strict, gdepth: 12, width: 100}
+		ee.header(out)
+		ee.insert(t, mkT("Doc:readme#parents@Folder:f#", "Folder:f#viewers@User:alice#"))
+		ee.table(out)
+		for _, q := range mkT("Doc:readme#view@User:alice#", "Folder:f#view@User:alice#", "Doc:readme#view@User:bob#") {
+			out.emit(fmt.Sprintf("tcheck %s %d", fmtTuple(q), 0), ee.check(q, 0))
+			cases++
+		}
+		ee.check(mkT("Doc:readme#owners@User:bob#")[0], 0) // not declared yet: a legitimate error, asked on purpose
+		ee.check(mkT("Folder:f#read@User:alice#")[0], 0)
+		reloaded := false
+		for try := 0; try < 5 && !reloaded; try++ {
+			if err := os.WriteFile(file, []byte(v2+strings.Repeat("\n", try)), 0o600); err != nil {
+				t.Fatal(err)
+			}
+			for w := 0; w < 40 && !reloaded; w++ {
+				time.Sleep(50 * time.Millisecond)
+				for _, n := range load() {
+					reloaded = reloaded || n.Name == "Reloaded"
+				}
+			}
+		}
+		if !reloaded {
+			t.Fatalf("the watched OPL file was replaced by an accepted document but the new namespaces never became visible")
+		}
+		ee.nss = load()
+		ee.header(out)
+		ee.insert(t, mkT("Doc:readme#owners@User:bob#"))
+		ee.table(out)
+		for _, q := range mkT("Doc:readme#view@User:alice#", "Doc:readme#owners@User:bob#", "Folder:f#read@User:alice#", "Doc:readme#view@User:bob#", "Doc:readme#owners@User:alice#") {
+			out.emit(fmt.Sprintf("tcheck %s %d", fmtTuple(q), 0), ee.check(q, 0))
+			cases++
+		}
+		e.close()
+		out.stat("corpus.reload")
 	}
 	for cases < cfg.n {
 		hr := r.fork()
